@@ -117,7 +117,7 @@ def obligations(tier):
         repo=["prot.c", "scan_ulong.c", "byte_chr.c", "error_temp.c"], lib=["ideal_substdio.c"],
         sysrename=["fork", "chdir", "setgroups", "setgid", "setuid", "getuid", "execv", "_exit", "close", "pipe"],
         grid=[{"NL": 10, "LL": 2}, {"NL": 7, "LL": 1}, {"NL": 10, "LL": 0}] if quick else
-             [{"NL": n, "LL": l} for n in (6, 7, 10, 12, 14) for l in (1, 3)] + [{"NL": 12, "LL": 0}],
+             [{"NL": n, "LL": l} for n in (7, 8, 10, 12) for l in (1, 3)] + [{"NL": 12, "LL": 0}],
         unwind_default=lambda p: p["NL"] + 4, unwind={"substdio_put": 64}, timeout=900,
         functions=["qmail-lspawn.c:spawn", "qmail-lspawn.c:report", "prot.c:prot_gid", "scan_ulong.c:scan_ulong", "byte_chr.c:byte_chr",
                    "error_temp.c:error_temp"],
@@ -126,7 +126,7 @@ def obligations(tier):
                "fail ENOENT/EAGAIN), _exit"],
         assumes=["record: exactly NL bytes, any contents (fields wherever the NULs are); local part LL bytes, domain and sender 2 bytes; "
                  "uid/gid compared with the decimal value only for fields of 1..9 digits"],
-        outside=["longer records"],
+        outside=["records longer than 12 bytes (14 bytes: no verdict in 900 s)"],
         claim="qmail-local is executed only after setgroups(1,{gid}), setgid(gid), setuid(uid) all succeeded in this order, never with uid 0 "
               "(QLX_ROOT before execv), with argv exactly {bin/qmail-local,--,user,home,local,dash,ext,domain,sender,defaultdelivery}; "
               "short records and failing steps exit with QLX codes that report() maps to Z",
